@@ -150,6 +150,7 @@ package core
 
 //@ func (*Spec).Step returns stride, err
 //@   safety C07
+//@   logged
 //@   canon C09
 //@   requires s != nil && st != nil && wfSpec(s)
 //@   modifies[C06,C12;profile=pure] nothing
@@ -233,6 +234,9 @@ package core
 //@   loop 0 invariant[C05,group:ord;profile=pure] order: forall j int :: 0 <= j && j < i && walked.Strides[j].Consumed != nil ==> hd(j) == 1 && walked.Strides[j].Consumed == old(pendings[kappa(j)])
 // Stride continuity: each step starts from the state the previous one produced
 // (sn(j) = node at the start of step j; tn(j) = node after step j).
+// The stride recorded for a step is the very stride Step returned (with its
+// emitted messages, traces and consumed message), not a reconstruction.
+//@   loop 0 invariant[C08,group:cont;profile=pure] samestride: i > 0 && lastret("core.(*Spec).Step", stride) != nil ==> walked.Strides[i-1] == lastret("core.(*Spec).Step", stride)
 //@   loop 0 ghostfn sn(i) string = st.NodeName
 //@   loop 0 ghostfn tn(i - 1) string = (i > 0 && walked.Strides[i-1].To != nil) ? walked.Strides[i-1].To.NodeName : (i > 0 ? sn(i - 1) : "")
 //@   loop 0 invariant[C05,group:cont;profile=pure] nfirst: i > 0 ==> sn(0) == old(st.NodeName)
@@ -272,6 +276,20 @@ package core
 //@ iface core.Interpreter.Compile(recv, ctx, code) returns (x, err)
 //@   modifies nothing
 
+// An interpreter executing compiled code: like an Action, it does not modify
+// what it is given (profile pure).
+//@ iface core.Interpreter.Exec(recv, ctx, bs, props, code, compiled) returns (exe, err)
+//@   modifies[;profile=pure] nothing
+
+// The action that ActionSource.Compile returns (the function literal it wraps
+// in a FuncAction): it is shared by every machine processed against the
+// compiled spec, so it must not write anything that outlives one call - in
+// particular none of the variables it captured from Compile.
+//@ func (*ActionSource).Compile$1 returns exe, err
+//@   requires interpreter != nil && *interpreter != nil && a != nil && *a != nil && x != nil
+//@   modifies[C12;profile=pure] nothing
+//@   writes[C12] nothing
+
 // A pattern parser supplied with the spec (DefaultPatternParser by default): assumed pure.
 //@ sig core.PatternParser(syntax, p) returns (x, err)
 //@   modifies nothing
@@ -294,6 +312,7 @@ package core
 //@   calls spec.PatternParser as sig:core.PatternParser
 //@   requires spec != nil
 //@   ensures err == nil ==> spec.PatternParser != nil
+//@   loop 1 invariant[C13] canonpat: rangeindex >= 0 && n.Branches.Branches[rangeindex] != nil ==> n.Branches.Branches[rangeindex].Pattern == lastret(core.Canonicalize, y)
 //@   ensures spec.Nodes == old(spec.Nodes) && spec.ErrorNode == old(spec.ErrorNode) && spec.NoAutoErrorNode == old(spec.NoAutoErrorNode) && spec.BootSource == old(spec.BootSource) && spec.ToobSource == old(spec.ToobSource)
 
 // typeOK: a branching type after compilation.
@@ -312,6 +331,9 @@ package core
 //@   loop 0 invariant[C07,C13] seenwf: forall k string :: seen(0)[k] ==> (k in spec.Nodes) && spec.Nodes[k] != nil && wfBranches(spec.Nodes[k].Branches) && typeOK(spec.Nodes[k].Branches) && (spec.Nodes[k].ActionSource != nil ==> spec.Nodes[k].Action != nil)
 //@   loop 1 invariant spec.Nodes != nil && spec.PatternParser != nil && n != nil && n.Branches != nil
 //@   loop 1 invariant[C07,C13] prefix: forall j int :: 0 <= j && j <= rangeindex ==> n.Branches.Branches[j] != nil
+// Every pattern a compiled spec holds has been through the canonicaliser,
+// whatever the pattern syntax and however the pattern was written.
+//@   loop 1 invariant[C13] canonpat: rangeindex >= 0 ==> n.Branches.Branches[rangeindex].Pattern == lastret(core.Canonicalize, y)
 
 // DefaultPatternParser (the function literal assigned to the package variable).
 //@ func init$1 returns x, err
